@@ -81,12 +81,13 @@ def tr2Core (p : Prog) : Except TrErr CProg := do
     | some b => trNested acc.te true 0 b
   pure { globals := acc.globals.reverse, setup := seqOf acc.setup.reverse, loop := loop }
 
-def tr2 (p : Prog) : Except TrErr CProg := if p.numbered then tr2Core p else .error .outsideFragment
+def tr2 (p : Prog) : Except TrErr CProg := if p.numbered then withHelpers p (tr2Core p) else .error .outsideFragment
 
-theorem tr2_ok {p : Prog} {c : CProg} (h : tr2 p = .ok c) : p.numbered = true ∧ tr2Core p = .ok c := by
+theorem tr2_ok {p : Prog} {c : CProg} (h : tr2 p = .ok c) :
+    p.numbered = true ∧ ∃ c0 hs, tr2Core p = .ok c0 ∧ c = { c0 with helpers := hs } := by
   unfold tr2 at h
   split at h
-  · exact ⟨‹_›, h⟩
+  · exact ⟨‹_›, withHelpers_ok h⟩
   · cases h
 
 /-! ### the fragment on which `tr2` is proved correct -/
